@@ -374,8 +374,19 @@ package protocol
 //@   allocates
 //@   ensures len(r) >= 2 && r[len(r)-2] == '\r' && r[len(r)-1] == '\n' && forall(k, 0, len(r) - 2, r[k] != '\r' && r[k] != '\n')
 
+// C04 (which value goes under which name): Server, Date, Content-Type, Content-Encoding, Content-Length, the generic
+// pairs as stored, Trailer, one Set-Cookie line per stored cookie with the cookie's own text, Connection: close.
 //@ func ResponseHeader.AppendBytes(h, dst) r
-//@   props C05, C03
+//@   props C05, C03, C04
+//@   assert @C04 before appendHeaderLine#0: sameSlice(arg1, bytestr.StrServer) && sameSlice(arg2, server) && len(arg2) > 0
+//@   assert @C04 before appendHeaderLine#1: sameSlice(arg1, bytestr.StrDate)
+//@   assert @C04 before appendHeaderLine#2: sameSlice(arg1, bytestr.StrContentType) && sameSlice(arg2, contentType) && len(arg2) > 0
+//@   assert @C04 before appendHeaderLine#3: sameSlice(arg1, bytestr.StrContentEncoding) && sameSlice(arg2, contentEncoding) && len(arg2) > 0
+//@   assert @C04 before appendHeaderLine#4: sameSlice(arg1, bytestr.StrContentLength) && sameSlice(arg2, h.contentLengthBytes)
+//@   assert @C04 before appendHeaderLine#5: sameSlice(arg1, kv.key) && sameSlice(arg2, kv.value)
+//@   assert @C04 before appendHeaderLine#6: sameSlice(arg1, bytestr.StrTrailer)
+//@   assert @C04 before appendHeaderLine#7: sameSlice(arg1, bytestr.StrSetCookie) && sameSlice(arg2, kv.value)
+//@   assert @C04 before appendHeaderLine#8: sameSlice(arg1, bytestr.StrConnection) && sameSlice(arg2, bytestr.StrClose)
 //@   crlf-discipline
 //@   crlf-exempt consts.StatusLine
 //@   modifies *
@@ -388,8 +399,18 @@ package protocol
 //@   modifies mem
 //@   allocates
 
+// C11 (which value goes under which name): every special field is written under its own name with the header's own
+// value - User-Agent, Host, Content-Type, Content-Length, the generic pairs as stored, Trailer, Cookie, Connection.
 //@ func RequestHeader.AppendBytes(h, dst) r
-//@   props C05, C03
+//@   props C05, C03, C11
+//@   assert @C11 before appendHeaderLine#0: sameSlice(arg1, bytestr.StrUserAgent) && sameSlice(arg2, userAgent) && len(arg2) > 0
+//@   assert @C11 before appendHeaderLine#1: sameSlice(arg1, bytestr.StrHost) && sameSlice(arg2, host) && len(arg2) > 0
+//@   assert @C11 before appendHeaderLine#2: sameSlice(arg1, bytestr.StrContentType) && sameSlice(arg2, contentType) && len(arg2) > 0
+//@   assert @C11 before appendHeaderLine#3: sameSlice(arg1, bytestr.StrContentLength) && sameSlice(arg2, h.contentLengthBytes)
+//@   assert @C11 before appendHeaderLine#4: sameSlice(arg1, kv.key) && sameSlice(arg2, kv.value)
+//@   assert @C11 before appendHeaderLine#5: sameSlice(arg1, bytestr.StrTrailer)
+//@   assert @C11 before appendHeaderLine#6: sameSlice(arg1, bytestr.StrCookie)
+//@   assert @C11 before appendHeaderLine#7: sameSlice(arg1, bytestr.StrConnection) && sameSlice(arg2, bytestr.StrClose)
 //@   replay-go var h RequestHeader; h.SetCookie("a", "b\r\nX: 1"); if bytes.Contains(h.Header(), []byte("\r\nX: 1\r\n")) { fmt.Println("VCGO-VIOLATED request Cookie line carries an injected header line") }
 //@   crlf-discipline
 //@   crlf-exempt h.Method()
